@@ -789,6 +789,40 @@ ELEMENTWISE_RANK = {'abs', 'real', 'imag', 'conj', 'sqrt', 'exp', 'log', 'square
 SHIFT_THROUGH = {'abs', 'real', 'imag', 'conj', 'square', 'exp', 'log', 'astype', 'nan_to_num'}
 
 
+def _replicate_len(t):
+    """number of items of [v] * n, also after item stores into it and under conditionals (None if t is not such a list)"""
+    a = t.single_atom() if isinstance(t, Term) else None
+    if a is None:
+        return None
+    if a.kind == 'replicate':
+        return a.args[1]
+    if a.kind == 'store':
+        return _replicate_len(a.args[0])
+    if a.kind == 'ite':
+        l1, l2 = _replicate_len(a.args[1]), _replicate_len(a.args[2])
+        return l1 if (l1 is not None and l2 is not None and l1.key == l2.key) else None
+    return None
+
+
+def _replicate_item(t, idx):
+    """item idx of [v] * n with item stores: a chain of `idx == k ? stored : ...` ending in v"""
+    a = t.single_atom()
+    if a.kind == 'replicate':
+        return a.args[0]
+    if a.kind == 'ite':
+        return mk_ite(a.args[0], _replicate_item(a.args[1], idx), _replicate_item(a.args[2], idx))
+    if a.kind == 'store':
+        k = a.args[1]
+        kc = k.const()
+        if kc is not None and kc < 0:
+            k = _replicate_len(a.args[0]) + kc          # L[-1] is L[len(L) - 1]
+        ic = idx.const()
+        if ic is not None and ic < 0:
+            idx = _replicate_len(a.args[0]) + ic
+        return mk_ite(mk_cmp('==', idx, k), a.args[2], _replicate_item(a.args[0], idx))
+    return None
+
+
 def _int8_valued(t):
     """items of an array read from bytes as int8 (np.frombuffer(..., dtype=np.int8), reshaped / indexed)"""
     a = t.single_atom() if isinstance(t, Term) else None
@@ -1166,6 +1200,10 @@ def mk_call(fn, args=(), kwargs=()):
             args[0].single_atom().kind not in ('tuple', 'list', 'comp') and (rank_of(args[0]) or 0) >= 3:
         # stacking ONE array of three or more axes iterates its first axis: hstack joins the items side by side
         return mk_call('concatenate', [args[0]], [('axis', Term.num(1 if fn == 'hstack' else 0))])
+    if fn == 'len' and len(args) == 1 and not kwargs and isinstance(args[0], Term):
+        n_ = _replicate_len(args[0])
+        if n_ is not None:
+            return n_
     if fn == 'len' and len(args) == 1 and not kwargs and isinstance(args[0], Term) and (
             args[0].single_atom() is None or (args[0].single_atom().kind == 'call' and args[0].single_atom().args[0] in (
                 'concatenate', 'zeros', 'empty', 'ones', 'full', 'reshape'))):
@@ -1207,6 +1245,17 @@ def mk_call(fn, args=(), kwargs=()):
         if reps is not None and reps.kind in ('tuple', 'list') and len(reps.args) == 2 and reps.args[1].const() == 1 \
                 and _rank1(_strip_array(args[0])):
             return mk_call('tile_rows', [_strip_array(args[0]), reps.args[0]])
+        # np.tile(np.reshape(v, (1, -1)), (n, 1)) / np.tile(np.reshape(v, (-1, 1)), (1, n)): the row / column grid of flattened v
+        xa_ = args[0].single_atom()
+        if reps is not None and reps.kind in ('tuple', 'list') and len(reps.args) == 2 and xa_ is not None and xa_.kind == 'call' \
+                and xa_.args[0] == 'reshape' and len(xa_.args[1]) == 2 and not xa_.args[2]:
+            shp_ = xa_.args[1][1].single_atom()
+            if shp_ is not None and shp_.kind == 'tuple' and len(shp_.args) == 2:
+                s0_, s1_ = shp_.args[0].const(), shp_.args[1].const()
+                if (s0_, s1_) == (1, -1) and reps.args[1].const() == 1:
+                    return mk_call('tile_rows', [_strip_array(xa_.args[1][0]), reps.args[0]])
+                if (s0_, s1_) == (-1, 1) and reps.args[0].const() == 1:
+                    return mk_call('tile_cols', [_strip_array(xa_.args[1][0]), reps.args[1]])
     if fn in ('tile_rows', 'tile_cols') and len(args) == 2 and not kwargs:
         # the replication count of a grid is the number of items of the other (one-dimensional) axis: len == size there
         ca = args[1].single_atom()
@@ -1360,6 +1409,39 @@ def mk_sub(base, idx):
         if it_ is not None:
             return it_
     at = base.single_atom()
+    if at is not None and at.kind in ('replicate', 'store', 'ite') and _replicate_len(base) is not None:
+        ia2_ = idx.single_atom()
+        if ia2_ is None or ia2_.kind not in ('slice', 'tuple'):
+            r_ = _replicate_item(base, idx)
+            if r_ is not None:
+                return r_
+    if at is not None and at.kind == 'record':
+        c_ = idx.const()
+        if c_ is not None and c_.denominator == 1 and -len(at.args[1]) <= c_ < len(at.args[1]):
+            return at.args[1][int(c_)][1]
+    if at is not None and at.kind == 'comp' and at.args[0] == 'list' and len(at.args) >= 4 and len(at.args[2]) == 1 \
+            and isinstance(at.args[3], str):
+        # [E(x) for x in IT][p]  ==  E(IT[p])   (one generator, no filter, a scalar non-negative position)
+        ga_ = at.args[2][0].single_atom()
+        ia3_ = idx.single_atom()
+        pc_ = idx.const()
+        if ga_ is not None and ga_.kind == 'tuple' and len(ga_.args) == 1 and (ia3_ is None or ia3_.kind not in ('slice', 'tuple')) \
+                and (pc_ is None or pc_ >= 0) and not _isnone(idx):
+            vid_ = at.args[3] + ':0'
+            pos_ = idx
+
+            def item_(x):
+                if x.kind == 'idx' and x.args == (vid_,):
+                    return pos_
+                if x.kind == 'elem' and len(x.args) == 2 and x.args[1] == vid_:
+                    return mk_sub(x.args[0], pos_)
+                if x.kind == 'key' and x.args and x.args[-1] == vid_:
+                    raise KeyError
+                return None
+            try:
+                return subst(at.args[1], item_)
+            except KeyError:
+                pass
     if at is not None:
         if at.kind in ('tuple', 'list'):
             c = idx.const()
